@@ -171,12 +171,13 @@ func c01Cfgs(c *chk.Ctx) []placeCfg {
 	}
 }
 
-// c01MultiClass: four shards, every combination of health classes (in sync / not ready / out of sync) on them,
+// c01MultiClass: four shards, every combination of health classes (in sync / not ready / out of sync / runtime
+// info fails / status request fails) on them,
 // one target with a well-scraped normal copy on any subset of the shards, nothing / a small / a big new target.
 func c01MultiClass(emit func(*h1.Scenario)) {
-	classes := []int{shInSync, shNotReady, shHashAcceptStill}
+	classes := []int{shInSync, shNotReady, shHashAcceptStill, shRuntimeFail, shStatusFail}
 	const n = 4
-	product([]int{3, 3, 3, 3, 2, 2, 2, 2, 3, 2}, func(ix []int) {
+	product([]int{5, 5, 5, 5, 2, 2, 2, 2, 3, 2}, func(ix []int) {
 		opt := h1.Opt{MaxHead: 0, MaxProc: 100, MaxShard: 99, MinShard: 0, IdleSec: []int64{0, 3600}[ix[9]]}
 		b := newB(opt, n)
 		b.Target(1, 40, 40, true, "up")
